@@ -103,12 +103,49 @@ class Cfg:
                 f"range({n})]), scale='gps', fmt='gps_ws')")
 
 
+_LRU = None
+
+
 def clear_caches():
-    from midgard.data._time import TimeBase
-    for name in ("to_scale", "to_format"):
-        f = getattr(TimeBase, name, None)
-        if f is not None and hasattr(f, "cache_clear"):
-            f.cache_clear()
+    """Reset every functools.lru_cache of the midgard package (found by type, not by name: to_scale/_to_scale/
+    to_format/... may be renamed or moved), so that a history starts from the state of a fresh interpreter."""
+    global _LRU
+    if _LRU is None:
+        import functools
+        import gc
+        import midgard.data._time  # noqa: F401  (make sure the wrappers exist)
+        wrapper_t = type(functools.lru_cache()(lambda: None))
+        _LRU = [o for o in gc.get_objects() if type(o) is wrapper_t
+                and str(getattr(o, "__module__", "")).startswith("midgard")]
+    for f in _LRU:
+        f.cache_clear()
+
+
+class TablesError(Exception):
+    """a fresh root (or its conversion) is not an elementwise array: no tables for the model"""
+
+
+def isolation_selftest():
+    """After a history that leaves 0-d results in midgard's memoization, clear_caches() must give back the
+    behaviour of a fresh interpreter.  Returns None if it does, else a description."""
+    from midgard.data.time import Time
+    mk = lambda: Time(np.array([2458849.625]), scale="utc", fmt="jd")
+    clear_caches()
+    t = mk()
+    a = t[0]
+    a.mjd, a.utc
+    old = a.tai
+    clear_caches()
+    t2 = mk()
+    bad = []
+    if np.ndim(t2.mjd) != 1:
+        bad.append("to_format result of an earlier 0-d object is served to a fresh array")
+    if np.ndim(np.asarray(t2.tai)) != 1 or t2.tai is old:
+        bad.append("to_scale result of an earlier 0-d object is served to a fresh array")
+    if t2.utc is not t2:
+        bad.append("own-scale access of a fresh array returns an earlier object")
+    clear_caches()
+    return "; ".join(bad) or None
 
 
 # ----------------------------------------------------------------------------- tokens / observation
@@ -406,15 +443,21 @@ def build_tables(cfg, tok):
     """elementwise tables from a fresh root: (scale, fmt, jd pair) -> row, jd pair -> converted pair,
     (scale, jd pair) -> mjd; format after conversion."""
     clear_caches()
-    r0 = cfg.root()
-    o0 = observe(r0, cfg, tok)
-    r1 = getattr(r0, cfg.scales[1])
-    o1 = observe(r1, cfg, tok)
-    clear_caches()
+    try:
+        r0 = cfg.root()
+        o0 = observe(r0, cfg, tok)
+        r1 = getattr(r0, cfg.scales[1])
+        o1 = observe(r1, cfg, tok)
+    except (Mixed, OutOfModel) as e:
+        raise TablesError(f"fresh root {cfg.how()} / its .{cfg.scales[1]}: {type(e).__name__} {e}")
+    finally:
+        clear_caches()
     vj, cv, dv = [], [], []
     for ob in (o0, o1):
         sc, rows, j1, j2, ln, d, f, s = ob
-        assert j1[0] == j2[0] == d[0] == "A" and len(rows) == len(j1[1]) == len(j2[1]) == len(d[1]) == cfg.n, ob
+        if not (j1[0] == j2[0] == d[0] == "A" and len(rows) == len(j1[1]) == len(j2[1]) == len(d[1]) == cfg.n):
+            raise TablesError(f"fresh root {cfg.how()} (scale tag {s}): observation {ob!r} is not an array of {cfg.n} "
+                              "aligned epochs")
         for k in range(cfg.n):
             vj.append(((s, f, (j1[1][k], j2[1][k])), rows[k]))
             dv.append(((s, (j1[1][k], j2[1][k])), d[1][k]))
@@ -567,7 +610,7 @@ def case_term(cfg, tok, rootobs, tries):
     return f"({tables}, {FMT_TAG[cfg.fmt]}, {js}, {oobs_term(rootobs)}, {emit.lst(tries)})"
 
 
-def task_tree(args, want_paths=False):
+def _task_tree(args, want_paths=False):
     """one subtree: config + first operation.  Returns (case term, depths of the nodes in preorder (bytes),
     {preorder index: (outside-model text, changed names)} for the nodes where these are not empty).
     With want_paths: the list of paths in preorder instead (the enumeration is deterministic)."""
@@ -584,7 +627,7 @@ def task_tree(args, want_paths=False):
     return case_term(cfg, tok, rootobs, [t]), bytes(len(p) for p, _, _ in meta), exc
 
 
-def task_random(args):
+def _task_random(args):
     """one random history.  Returns (case term, meta)."""
     n, fmt, seed, length = args
     cfg = Cfg(n, fmt)
@@ -609,6 +652,28 @@ def task_random(args):
         opt = op_term(op)
         term = "(Node " + opt + " " + ob + " " + emit.lst(str(c) for c in changed) + " " + emit.lst([term] if term else []) + ")"
     return case_term(cfg, tok, rootobs, [term] if term else []), meta
+
+
+def _guard(fn, args):
+    """A worker never raises: anything unexpected comes back as ('harness-error', kind, text) and is classified
+    by run()."""
+    import traceback
+    try:
+        return fn(args)
+    except TablesError as e:
+        return ("harness-error", "tables", str(e))
+    except Exception as e:
+        return ("harness-error", "exception", f"{type(e).__name__}: {e}\n{traceback.format_exc()[-1500:]}")
+
+
+def task_tree(args, want_paths=False):
+    if want_paths:
+        return _task_tree(args, want_paths=True)
+    return _guard(_task_tree, args)
+
+
+def task_random(args):
+    return _guard(_task_random, args)
 
 
 def first_ops(cfg):
@@ -797,6 +862,14 @@ def replay_of(cfg_key, path, verdict, other, changed):
 def run(ctx):
     ok = ctx.prove(THEOREMS) if not os.environ.get("VERIF_C04_NOPROOF") else True     # development aid only
     rng = ctx.rng
+    iso = isolation_selftest()
+    if iso:
+        # the histories cannot be separated from each other: no sound comparison is possible
+        ctx.violation(dict(kind="isolation", problem=iso,
+                           hint="harness/drivers/c04.py clear_caches() resets functools.lru_cache wrappers of the midgard "
+                                "package; midgard now memoizes through something else"),
+                      what="C04 harness cannot reset midgard's memoization between histories: " + iso, found=False)
+        return ctx.finish(level="proof", rule="isolation self-test failed; correspondence not run")
     trees, rnd = plan(ctx)
     ctx.log(f"plan: {len(trees)} subtrees, {len(rnd)} random histories")
     nproc = min(core.NCPU, 16)
@@ -806,14 +879,30 @@ def run(ctx):
     ctx.log("midgard runs done")
 
     cases, metas = [], []          # metas[i] = ("tree", task, depths, exceptions) | ("rnd", cfg_key, [(path, other, changed)])
-    for task, (term, depths, exc) in zip(trees, tree_res):
-        cases.append(term)
-        metas.append(("tree", task, depths, exc))
-        ctx.count(f"tree:{task[1]}:n={task[0]}:depth={task[3]}", len(depths))
-    for (n, fmt, seed, ln), (term, meta) in zip(rnd, rnd_res):
-        cases.append(term)
-        metas.append(("rnd", (n, fmt), meta))
-        ctx.count(f"random:{fmt}:n={n}", len(meta))
+    n_err = 0
+    for task, res in list(zip(trees, tree_res)) + list(zip(rnd, rnd_res)):
+        if res[0] == "harness-error":
+            n_err += 1
+            ctx.count(f"outside-model:{res[1]}")
+            cfg = Cfg(task[0], task[1])
+            if res[1] == "tables":
+                # isolation was verified above, so this is the behaviour of a fresh array: a concrete input
+                ctx.violation(dict(kind="fresh_root", config=cfg.key(), how=cfg.how(), observed=res[2]),
+                              what="a fresh array (or its scale conversion) is not an elementwise array: " + res[2][:200])
+            else:
+                ctx.violation(dict(kind="harness_error", task=repr(task), error=res[2]),
+                              what="the driver could not run a history task: " + res[2].split("\n")[0][:200], found=False)
+            continue
+        if len(task) == 5:
+            term, depths, exc = res
+            cases.append(term)
+            metas.append(("tree", task, depths, exc))
+            ctx.count(f"tree:{task[1]}:n={task[0]}:depth={task[3]}", len(depths))
+        else:
+            term, meta = res
+            cases.append(term)
+            metas.append(("rnd", (task[0], task[1]), meta))
+            ctx.count(f"random:{task[1]}:n={task[0]}", len(meta))
     del tree_res, rnd_res
     path_cache = {}
 
